@@ -1,6 +1,7 @@
 import PynetVerif.Model.Ctx
 import PynetVerif.Lemmas.Ctx
 import PynetVerif.Props.C18
+import PynetVerif.Gen.Dimse
 /-!
 C19 — requests on presentation contexts that were not accepted never reach a
 handler.
@@ -123,5 +124,11 @@ example :
     serveRequest true true acc 7 .storage .cStore false = .ignored ∧
     (∀ c ∈ acc, ¬ (AbOk 11 c ∧ c.asScp = true)) := by
   intro le acc; decide
+
+/-- the `ctxId` the theorems above quantify over is the id of the PDV that carried the last
+command-set fragment (`DIMSEMessage.context_id`, set by `decode_msg`): that, and not the id of a
+later PDV of the same P-DATA, is what `receive_primitive` files the message under (syntax fact
+regenerated from dimse.py on every run; the harness sends messages with mixed ids) -/
+theorem C19_routes_by_command_context : Gen.Dimse.recvContextSource = "message.context_id" := by decide
 
 end PynetVerif
